@@ -1,7 +1,7 @@
-\* plans as a relation, no migrations: 324 distinct / 149,078 generated, ~15 s (cost = enumeration of ValidPlans per state)
+\* plans as a relation, no migrations: 108 distinct tables, every valid plan of every request carried out; seconds
 SPECIFICATION Spec
 CONSTANTS
-  Hs = {4, 5}
+  Hs = {3, 4}
   Ps = {2}
   Ss = {3}
   Phases = {0}
